@@ -905,6 +905,10 @@ func (cfg *Config) quotedElemFields(pe *syntax.ParamExp) ([]string, error) {
 		if star {
 			return []string{cfg.ifsJoin(elems)}, nil
 		}
+		if elems == nil {
+			// An empty list produces zero fields; nil means "not a list".
+			elems = []string{}
+		}
 		return elems, nil
 	}
 	if nodeLit(pe.Index) == "@" && !cfg.Env.Get(name).IsSet() {
